@@ -60,20 +60,19 @@ theorem bind_solve {Bw Bs : KktSolver α → KktSolver α → Prop} (hsim : KktS
   exact RelM.bind h hg
 
 theorem solveConstantRhs_rel {Bw Bs : KktSolver α → KktSolver α → Prop} (hsim : KktSim Bw Bs) {n : Nat}
-    {S S' : KktSys α} (data : ProblemData α) (st : LinSettings α) (h : KRel Bs n S S') :
-    RelM (fun r r' => r.1 = r'.1 ∧ KRel Bs n r.2 r'.2 ∧ (r.1 = true → r.2.x2 = r'.2.x2 ∧ r.2.z2 = r'.2.z2))
+    {S S' : KktSys α} (data : ProblemData α) (st : LinSettings α) (h : KRel Bs n data.q.size S S') :
+    RelM (fun r r' => r.1 = r'.1 ∧ KRel Bs n data.q.size r.2 r'.2 ∧ (r.1 = true → r.2.x2 = r'.2.x2 ∧ r.2.z2 = r'.2.z2))
       (S.solveConstantRhs data st) (S'.solveConstantRhs data st) := by
   unfold KktSys.solveConstantRhs
-  rw [axpbyE_zero_congr _ _ _ h.workx]
-  refine RelM.bind (RelM.refl_eq _) ?_
-  intro workx _ e
-  subst e
+  dsimp only
+  rw [← scalaropFrom_congr _ _ h.workx]
+  generalize Vec.scalaropFrom S.workx (fun q => -q) data.q = workx
   refine bind_solve hsim h.solver _ _ _ ?_
   rintro ⟨ok, lx, lz, K1⟩ ⟨ok', lx', lz', K1'⟩ ⟨h1, h2, h3, h4⟩
   dsimp only at h1 h2 h3 h4 ⊢
   subst h1 h2 h3
-  have hk : KRel Bs n { S with kktsolver := K1, workx := workx } { S' with kktsolver := K1', workx := workx } :=
-    { h with solver := h4, workx := rfl }
+  have hk : KRel Bs n data.q.size { S with kktsolver := K1, workx := workx } { S' with kktsolver := K1', workx := workx } :=
+    { h with solver := h4, workx := SameFrom.rfl' _ _ }
   cases ok with
   | false => exact ⟨rfl, hk, fun h => (Bool.false_ne_true h).elim⟩
   | true =>
@@ -88,15 +87,15 @@ theorem solveConstantRhs_rel {Bw Bs : KktSolver α → KktSolver α → Prop} (h
 
 /-- `KKTSystem::update` -/
 theorem KktSys.update_rel {Bw Bs : KktSolver α → KktSolver α → Prop} (hsim : KktSim Bw Bs) {n : Nat}
-    {S S' : KktSys α} (data : ProblemData α) (cones : List (ConeSt α)) (st : LinSettings α) (h : KRel Bw n S S') :
-    RelM (fun r r' => r.1 = r'.1 ∧ KRel Bs n r.2 r'.2 ∧ (r.1 = true → r.2.x2 = r'.2.x2 ∧ r.2.z2 = r'.2.z2))
+    {S S' : KktSys α} (data : ProblemData α) (cones : List (ConeSt α)) (st : LinSettings α) (h : KRel Bw n data.q.size S S') :
+    RelM (fun r r' => r.1 = r'.1 ∧ KRel Bs n data.q.size r.2 r'.2 ∧ (r.1 = true → r.2.x2 = r'.2.x2 ∧ r.2.z2 = r'.2.z2))
       (S.update data cones st) (S'.update data cones st) := by
   unfold KktSys.update
   refine RelM.bind (hsim.update cones st h.solver) ?_
   rintro ⟨ok, K1⟩ ⟨ok', K1'⟩ ⟨h1, h2⟩
   dsimp only at h1 h2 ⊢
   subst h1
-  have hk : KRel Bs n { S with kktsolver := K1 } { S' with kktsolver := K1' } := { h with solver := h2 }
+  have hk : KRel Bs n data.q.size { S with kktsolver := K1 } { S' with kktsolver := K1' } := { h with solver := h2 }
   cases ok with
   | false => exact ⟨rfl, hk, fun h => (Bool.false_ne_true h).elim⟩
   | true => exact solveConstantRhs_rel hsim data st hk
@@ -108,9 +107,9 @@ theorem waxpbyE_len_congr {len len' : Nat} (a : α) (x : Array α) (b : α) (y :
 theorem KktSys.solve_rel {Bw Bs : KktSolver α → KktSolver α → Prop} (hsim : KktSim Bw Bs) {n : Nat}
     {S S' : KktSys α} {lhs lhs' : Vars α} (rhs : Vars α) (data : ProblemData α) (vars : Vars α)
     (cones : List (ConeSt α)) (dir : StepDirection) (st : LinSettings α) (hn : numelAll cones = n)
-    (h : KRel Bs n S S') (hx2 : S.x2 = S'.x2) (hz2 : S.z2 = S'.z2) (hl : StepShape n lhs lhs') :
+    {nq : Nat} (h : KRel Bs n nq S S') (hx2 : S.x2 = S'.x2) (hz2 : S.z2 = S'.z2) (hl : StepShape n lhs lhs') :
     RelM (fun r r' => r.1 = r'.1 ∧ (if r.1 = true then r.2.1 = r'.2.1 else r.2.1 = lhs ∧ r'.2.1 = lhs')
-        ∧ KRel Bs n r.2.2 r'.2.2 ∧ r.2.2.x2 = r'.2.2.x2 ∧ r.2.2.z2 = r'.2.2.z2)
+        ∧ KRel Bs n nq r.2.2 r'.2.2 ∧ r.2.2.x2 = r'.2.2.x2 ∧ r.2.2.z2 = r'.2.2.z2)
       (S.solve lhs rhs data vars cones dir st) (S'.solve lhs' rhs data vars cones dir st) := by
   subst hn
   obtain ⟨ks, x1, z1, x2, z2, wx, wz, wc⟩ := S
@@ -120,7 +119,7 @@ theorem KktSys.solve_rel {Bw Bs : KktSolver α → KktSolver α → Prop} (hsim 
   subst hx2 hz2
   unfold KktSys.solve
   dsimp only
-  rw [copyInto_congr rhs.x "workx" (zmulL_size hwx)]
+  rw [copyInto_congr rhs.x "workx" hwx.1]
   refine RelM.bind (RelM.refl_eq _) ?_
   intro workx _ e
   subst e
@@ -143,14 +142,14 @@ theorem KktSys.solve_rel {Bw Bs : KktSolver α → KktSolver α → Prop} (hsim 
     subst h1 h2 h3
     cases ok with
     | false =>
-      exact ⟨rfl, ⟨rfl, rfl⟩, ⟨h4, hx1, hz1, rfl, rfl, rfl, rfl, SameFrom.rfl' _ _⟩, rfl, rfl⟩
+      exact ⟨rfl, ⟨rfl, rfl⟩, ⟨h4, hx1, hz1, rfl, rfl, SameFrom.rfl' _ _, rfl, SameFrom.rfl' _ _⟩, rfl, rfl⟩
     | true =>
       simp only [Bool.not_true, Bool.false_eq_true, if_false]
       rw [copyInto_congr lx "x1" hx1, copyInto_congr lz "z1" hz1]
       have hm : ∀ dz, mulHs cones lhs.s dz = mulHs cones lhs'.s dz := fun dz => mulHs_congr cones dz hl.s
       simp only [hm, hl.x, hl.z]
       repeat (refine RelM.bind (RelM.refl_eq _) ?_; intro _ _ e; subst e)
-      exact ⟨rfl, rfl, ⟨h4, rfl, rfl, rfl, rfl, rfl, rfl, SameFrom.rfl' _ _⟩, rfl, rfl⟩
+      exact ⟨rfl, rfl, ⟨h4, rfl, rfl, rfl, rfl, SameFrom.rfl' _ _, rfl, SameFrom.rfl' _ _⟩, rfl, rfl⟩
 
 /-- the three vectors of an iterate agree -/
 def VarsXSZ (v v' : Vars α) : Prop := v.x = v'.x ∧ v.s = v'.s ∧ v.z = v'.z
@@ -160,9 +159,9 @@ failed KKT solve leaves the incoming — stale — vectors in place), or when th
 were the same anyway -/
 theorem KktSys.solveInitialPoint_rel {Bw Bs : KktSolver α → KktSolver α → Prop} (hsim : KktSim Bw Bs) {n : Nat}
     {S S' : KktSys α} {vars vars' : Vars α} (data : ProblemData α) (st : LinSettings α)
-    (h : KRel Bs n S S') (hv : VarsShape vars vars') :
+    {nq : Nat} (h : KRel Bs n nq S S') (hv : VarsShape vars vars') :
     RelM (fun r r' => r.1 = r'.1 ∧ ((r.1 = true ∨ VarsXSZ vars vars') → VarsXSZ r.2.1 r'.2.1)
-        ∧ VarsShape r.2.1 r'.2.1 ∧ KRel Bs n r.2.2 r'.2.2)
+        ∧ VarsShape r.2.1 r'.2.1 ∧ KRel Bs n nq r.2.2 r'.2.2)
       (S.solveInitialPoint vars data st) (S'.solveInitialPoint vars' data st) := by
   obtain ⟨ks, x1, z1, x2, z2, wx, wz, wc⟩ := S
   obtain ⟨ks', x1', z1', x2', z2', wx', wz', wc'⟩ := S'
@@ -171,7 +170,7 @@ theorem KktSys.solveInitialPoint_rel {Bw Bs : KktSolver α → KktSolver α → 
   unfold KktSys.solveInitialPoint
   dsimp only
   split
-  · rw [map_const_congr (0 : α) (zmulL_size hwx), copyInto_congr data.b "workz" hwz]
+  · rw [map_const_congr (0 : α) hwx.1, copyInto_congr data.b "workz" hwz]
     refine RelM.bind (RelM.refl_eq _) ?_
     intro workz _ e
     subst e
@@ -182,7 +181,7 @@ theorem KktSys.solveInitialPoint_rel {Bw Bs : KktSolver α → KktSolver α → 
     cases ok with
     | false =>
       simp only [Bool.false_eq_true, if_false, Bool.not_false, if_true]
-      refine ⟨rfl, ?_, ⟨hv.x, ?_, hv.z⟩, ⟨h4, hx1, hz1, hx2, hz2, rfl, rfl, hwc⟩⟩
+      refine ⟨rfl, ?_, ⟨hv.x, ?_, hv.z⟩, ⟨h4, hx1, hz1, hx2, hz2, SameFrom.rfl' _ _, rfl, hwc⟩⟩
       · rintro (hc | ⟨e1, e2, e3⟩)
         · exact (Bool.false_ne_true hc).elim
         · exact ⟨e1, congrArg Vec.negate e2, e3⟩
@@ -200,9 +199,6 @@ theorem KktSys.solveInitialPoint_rel {Bw Bs : KktSolver α → KktSolver α → 
       refine RelM.bind (RelM.refl_eq _) ?_
       intro xs _ e
       subst e
-      refine RelM.bind (RelM.refl_eq _) ?_
-      intro workx _ e
-      subst e
       refine bind_solve hsim h4 _ _ _ ?_
       rintro ⟨ok2, lx2, lz2, K2⟩ ⟨ok2', lx2', lz2', K2'⟩ ⟨g1, g2, g3, g4⟩
       dsimp only at g1 g2 g3 g4 ⊢
@@ -210,7 +206,7 @@ theorem KktSys.solveInitialPoint_rel {Bw Bs : KktSolver α → KktSolver α → 
       cases ok2 with
       | false =>
         simp only [Bool.false_eq_true, if_false]
-        refine ⟨rfl, ?_, ⟨rfl, rfl, hv.z⟩, ⟨g4, hx1, hz1, hx2, hz2, rfl, rfl, hwc⟩⟩
+        refine ⟨rfl, ?_, ⟨rfl, rfl, hv.z⟩, ⟨g4, hx1, hz1, hx2, hz2, SameFrom.rfl' _ _, rfl, hwc⟩⟩
         rintro (hc | ⟨e1, e2, e3⟩)
         · exact (Bool.false_ne_true hc).elim
         · exact ⟨rfl, rfl, e3⟩
@@ -220,8 +216,8 @@ theorem KktSys.solveInitialPoint_rel {Bw Bs : KktSolver α → KktSolver α → 
         refine RelM.bind (RelM.refl_eq _) ?_
         intro z _ e
         subst e
-        exact ⟨rfl, fun _ => ⟨rfl, rfl, rfl⟩, ⟨rfl, rfl, rfl⟩, ⟨g4, hx1, hz1, hx2, hz2, rfl, rfl, hwc⟩⟩
-  · rw [zmulL_size hwx]
+        exact ⟨rfl, fun _ => ⟨rfl, rfl, rfl⟩, ⟨rfl, rfl, rfl⟩, ⟨g4, hx1, hz1, hx2, hz2, SameFrom.rfl' _ _, rfl, hwc⟩⟩
+  · rw [hwx.1]
     split
     · rfl
     · rw [copyInto_congr data.b "workz" hwz]
@@ -239,7 +235,7 @@ theorem KktSys.solveInitialPoint_rel {Bw Bs : KktSolver α → KktSolver α → 
         rw [hv.s, hv.z]
         split
         · rfl
-        · refine ⟨rfl, ?_, ⟨hv.x, ?_, hv.z⟩, ⟨h4, hx1, hz1, hx2, hz2, rfl, rfl, hwc⟩⟩
+        · refine ⟨rfl, ?_, ⟨hv.x, ?_, hv.z⟩, ⟨h4, hx1, hz1, hx2, hz2, SameFrom.rfl' _ _, rfl, hwc⟩⟩
           · rintro (hc | ⟨e1, e2, e3⟩)
             · exact (Bool.false_ne_true hc).elim
             · exact ⟨e1, congrArg Vec.negate e3, e3⟩
@@ -258,6 +254,6 @@ theorem KktSys.solveInitialPoint_rel {Bw Bs : KktSolver α → KktSolver α → 
         rw [hv.s]
         split
         · rfl
-        · exact ⟨rfl, fun _ => ⟨rfl, rfl, rfl⟩, ⟨rfl, rfl, rfl⟩, ⟨h4, hx1, hz1, hx2, hz2, rfl, rfl, hwc⟩⟩
+        · exact ⟨rfl, fun _ => ⟨rfl, rfl, rfl⟩, ⟨rfl, rfl, rfl⟩, ⟨h4, hx1, hz1, hx2, hz2, SameFrom.rfl' _ _, rfl, hwc⟩⟩
 
 end Clarabel.Solver
